@@ -124,6 +124,16 @@ def run(ck):
                 "x := 1.5\ny := 1.5\nm := import(\"math\")\ne := import(\"enum\")\nm2 := import(\"math\")\ne2 := import(\"enum\")\nr := [m.pi == m2.pi, len(e.map([x, y], func(k, v) { return v })), len(e2.map([y], func(k, v) { return v }))]",
                 "c := 'a'\nd := 'a'\nq := [1, 1, 2, 2]\nfor i := 0; i < 2; i++ { t := import(\"times\"); u := import(\"times\"); q[i] = t.second == u.second }\nm := import(\"math\")\nr := m.abs(-3)"):
         extra.append({"src": src + "\n", "tag": "builtin-module-twice", "valid": True, "stdlib": True})
+    # operand-stack corners of single instructions: spreading an empty array (alone, after fixed arguments, into fixed parameters),
+    # slices that select the whole value or nothing of every sliceable type, compound assignment with every operator
+    for src in ("f := func(...a) { return len(a) }\nxs := []\nr := [f(xs...), f(1, xs...), 5]\nys := [1]\ns := [f(ys...), 6]",
+                "g := func(a, ...b) { return [a, b] }\nxs := []\nr := [7, g(1, xs...), 8]\nh := func(a, b) { return a + b }\nzs := [1, 2]\ns := [h(zs...), 9]",
+                "f := func(...a) { return a }\nr := [1, f([]...), 2, f(immutable([])...), 3]",
+                "b := bytes(\"abc\")\nr := [1, b[:], 2, b[0:], 3, b[:3], 4, b[-3:99], 5, b[1:], 6, b[3:], 7, b[:0], 8]",
+                "t := \"abc\"\nr := [1, t[:], 2, t[0:], 3, t[:3], 4, t[-3:99], 5, t[3:], 6, t[:0], 7]\na := [1, 2, 3]\nq := [1, a[:], 2, a[0:], 3, a[:3], 4, a[3:], 5, immutable(a)[:], 6]",
+                "a := 17\na %= 5\nb := 6\nb &= 3\nc := 6\nc |= 1\nd := 6\nd ^= 3\ne := 6\ne &^= 2\ng := 1\ng <<= 3\nh := 64\nh >>= 2\ni := 2\ni *= 3\nj := 9\nj /= 2\nk := 1\nk -= 4\nr := [a, b, c, d, e, g, h, i, j, k]",
+                "f := func(m) { m.x %= 4; m.y[0] <<= 2; for i := 0; i < 3; i++ { m.x %= 3 }; return m }\nr := f({x: 11, y: [1]})"):
+        extra.append({"src": src + "\n", "tag": "instruction-corner", "valid": True})
     for i, e in enumerate(extra):
         e.update({"id": i + 1, "inputs": [], "mods": []})
     ed = vlib.run_cases(ck, "dump", extra, nproc=4)
